@@ -18,7 +18,8 @@ fn netcode_seq_preset(src: &mut Src) -> u64 {
         2 => 65_530,
         3 => (1 << 32) - 3,
         4 => (1 << 56) - 2,
-        _ => u64::MAX - 100_000,
+        // eight sequence bytes with room for every packet a case can produce (the counter itself cannot pass 2^64 - 1)
+        _ => u64::MAX - (1 << 40),
     }
 }
 
